@@ -2,8 +2,8 @@
 from hypothesis import strategies as st
 
 SLEEPS = [0, 0, 0.5, 1, 1, 2, 3]
-EXC = ['E', 'L', 'K', 'I', 'V', 'R', 'Q', 'Q']      # ('Q': distinct failures that compare equal)
-PRIV = ['A', 'KI', 'SE', 'A', 'A2', 'KI2', 'SE2']     # (derived classes count as privileged, too)
+EXC = ['E', 'L', 'K', 'I', 'V', 'R', 'Q', 'Q', 'F']      # ('Q': distinct failures that compare equal; 'F': a falsy one)
+PRIV = ['A', 'KI', 'SE', 'A', 'A2', 'KI2', 'SE2', 'A0']     # (derived classes count as privileged, too; 'A0' is falsy)
 
 
 class Namer:
